@@ -72,8 +72,8 @@ def build_cases(tier, seed):
     for n in (10, 12) if tier == "quick" else (9, 10, 11, 12, 13):
         nums = [str(k) for k in range(1, n + 1)]
         rk = lambda *xs: tuple((x,) for x in xs)
-        for combo in (((rk(nums[0], nums[9], nums[1]), 2), (rk(nums[n - 1], nums[2]), 1)),
-                      ((rk(*nums), 1),), ((rk(*nums[::-1]), 10), (rk(nums[1], nums[9]), 2)),
+        for combo in (((rk(nums[0], nums[min(9, n - 1)], nums[1]), 2), (rk(nums[n - 1], nums[2]), 1)),
+                      ((rk(*nums), 1),), ((rk(*nums[::-1]), 10), (rk(nums[1], nums[min(9, n - 1)]), 2)),
                       tuple((rk(x), 1) for x in nums)):
             cs.append(("scot", (n, 2, combo)))
     for k in ("first_row_len3", "cand_overcount", "cand_undercount", "missing", "empty"):
